@@ -9,6 +9,9 @@ for d in seeded/${1:-}*/; do
   n=$(basename $d)
   [ -f $d/meta.json ] || continue
   prop=$(python3 -c "import json;print(json.load(open('$d/meta.json'))['property'])")
+  if [ "$(python3 -c "import json;print(json.load(open('$d/meta.json'))['detected'])")" = "False" ]; then
+    echo "$n: outside the envelope (recorded as not detected, DESIGN Appendix D limits)" | tee -a $out; continue
+  fi
   others=$(python3 -c "
 import json,re
 m=json.load(open('$d/meta.json'))
